@@ -123,8 +123,7 @@ def callback_campaign(ctx, out, n_hist, n_steps):
             out.keys.add(core.hash_str(json.dumps(log, sort_keys=True, default=str)))
 
 
-class Boom(Exception):
-    pass
+from booms import CbBoom as Boom, boom  # noqa: E402
 
 
 def snapshot(tree):
@@ -141,7 +140,7 @@ def readonly_ops(tree, k_fail):
 
         def f(*a, **kw):
             if next(c) == k_fail:
-                raise Boom()
+                raise boom()
             return fn_ok(*a, **kw)
 
         return f
